@@ -90,7 +90,7 @@ class C15(Check):
                  "deliberate raise and %-format of None is an error) of the Ethernet/VLAN/LLC-SNAP/ARP/IPv4/ICMP/TCP(+options)/UDP/LLDP parse, pack "
                  "and print paths and the MPLS/EAPOL/EAP/IPv6(+extension headers)/ICMPv6(+NDP)/IGMP/GRE/VXLAN/RIP/DNS/DHCP parse paths + differential correspondence of the compiled model against the real classes on exhaustive truncation / "
                  "single-byte corruption / structure-aware / random frames + independent 'nothing raises, progress recorded' oracle on all 21 parsers")
-    rule = ("case = one byte string offered to ethernet(raw=...): a valid frame of the 125-frame corpus (all 21 modules; incl. realistic TCP SYN / SYN-ACK "
+    rule = ("case = one byte string offered to ethernet(raw=...): a valid frame of the 153-frame corpus (all 21 modules; incl. realistic TCP SYN / SYN-ACK "
             "option layouts and IGMP v1/v2/v3 queries and reports), every truncation of it (ICMPv6 / IGMP: also with the checksum recomputed), the payload-less "
             "TCP segments whose last option (every kind incl. MPTCP with every subtype, every length) starts in the last 1..4 header bytes, ALL 256 values at "
             "every protocol-selector / type / code / length / option-kind / option-length byte of every corpus frame and at every header byte of the "
@@ -932,38 +932,39 @@ C15.theorems = ["Pox.C15." + t for t in (
     "nesting_guard_witness", "dns_names_witness")]
 C15.level_text = (
     "Proved in Lean for EVERY byte string offered to ethernet(raw=...) (= PacketIn.parsed), for a model in which every struct.unpack of a wrong-size slice, "
-    "index past the end, ord() of an empty slice, deliberate raise, assert and %-format of None is an error, and for EVERY combination of the repairs the tree "
-    "may have (fx: the K repairs of the registered findings; vr: the result-changing repairs D46/D48/D49/D50 - both read off the source on every run): "
-    "given len/4+1 nested constructor activations the code returns an object chain that covers and tiles the input and whose only opaque layer can be a TCP "
-    "segment with the MPTCP option, or raises at a registered finding whose repair the tree does NOT have - nothing else (parse_total_with; with K5..K16, i.e. "
-    "/repo HEAD, it always returns: parse_total_fixed). With the nesting guard K1 (fixes/C15-K1_nesting_guard.diff) the budget hypothesis is discharged: 35 nested "
-    "activations suffice for every input however long or nested (parse_total_guarded, and unconditionally for the fully repaired tree: parse_total); without it a "
-    "frame of 14+4d bytes raises RecursionError for every budget d (nesting_defect, K1). Paths covered: Ethernet -> 802.1Q (nested) / LLC-SNAP -> ARP / IPv4(+options) "
-    "-> ICMP echo/unreachable/time-exceeded (quoted datagram, nested) / TCP (+option parser; its loop never runs out of model fuel: tcp_options_fuel) / UDP, LLDP with "
-    "all TLV classes, MPLS, EAPOL/EAP, IPv6 + extension-header chain, ICMPv6 + NDP RS/RA/NS/NA with the option walker, IGMP v1-v3, GRE (+source routing), VXLAN, RIP, "
-    "DHCP (fixed part + option walker), DNS (header as the code stands; with D46 questions, resource records and name decompression: a compression-pointer loop ends in "
-    "CPython's RecursionError inside dns.parse's try/except Exception - parse gives up, nothing escapes; dns_names_witness). str()/dump() of any chain without an MPTCP "
-    "layer is defined, phase-2 classes included (print_total_partial, print_total); pack() of any result made of phase-1 classes is defined (repack_total_partial); the "
-    "phase-1 model returns what the total C14 parser returns (refines_c14). Each finding K5..K14 has a decided witness that parses once its repair is in "
-    "(known_k*, known_witnesses_repaired), the guard has one (nesting_guard_witness), and five defects of the tree before the phase-1 repairs have theirs. Every run "
-    "re-checks BOTH models (phase-2 parsers modelled / left foreign) against the real classes on every truncation and single-byte corruption of 125 valid frames "
-    "covering all 21 modules, evaluates the 'nothing raises, progress recorded' oracle on parse, PacketIn.parsed, pack(), str(), dump(), and raises real PacketIn "
-    "events for the corpus and one generated frame in sixteen into the l2_learning (plain and transparent; flood, drop and flow-install paths with "
-    "ofp_match.from_packet) and discovery handlers.")
+    "index past the end, ord() of an empty slice, deliberate raise, assert and %-format of None is an error. HEADLINE (the tree as it is: Cfg.current = all "
+    "repairs K1, K5..K16, D46, D48, D49, D50 in, which the run confirms by probing the tree's behaviour): with 35 nested constructor activations the code "
+    "returns, for every input however long or nested, an object chain that covers and tiles the input and whose only opaque layer can be a TCP segment with the "
+    "MPTCP option (parse_total - no hypothesis on the input, no registered finding left; progress_recorded); str()/dump() of every result without an MPTCP "
+    "layer is defined, phase-2 classes included (print_total); pack() is defined for every result inside the pack model: the phase-1 classes and mpls / eapol / "
+    "eap behind the frame-level headers (repack_total). The same holds for every other combination of repairs a tree may have (parse_total_with: only the "
+    "findings NOT repaired can raise, within len/4+1 activations; parse_total_guarded: the nesting guard alone discharges the budget; ..._with). Regression "
+    "witnesses of reverted trees: nesting_defect (a frame of 14+4d bytes raises RecursionError for every budget d without K1), known_k* (one decided witness "
+    "per registered finding, each parsing once its repair is in: known_witnesses_repaired), nesting_guard_witness, dns_names_witness (a compression-pointer "
+    "loop and a non-UTF-8 label make dns.parse give up inside its try/except), five defects of the tree before the phase-1 repairs. Paths covered: Ethernet -> "
+    "802.1Q (nested) / LLC-SNAP -> ARP / IPv4(+options) -> ICMP echo/unreachable/time-exceeded (quoted datagram, nested) / TCP (+option parser; its loop never "
+    "runs out of model fuel: tcp_options_fuel) / UDP, LLDP with all TLV classes, MPLS, EAPOL/EAP, IPv6 + extension-header chain, ICMPv6 + NDP RS/RA/NS/NA with "
+    "the option walker, IGMP v1-v3, GRE (+source routing), VXLAN, RIP, DHCP (fixed part + option walker), DNS (questions, records, name decompression). The "
+    "phase-1 model returns what the total C14 parser returns (refines_c14). Every run re-checks BOTH models (phase-2 parsers modelled / left foreign) against the "
+    "real classes on every truncation and single-byte corruption of 153 valid frames covering all 21 modules, and evaluates the oracle: nothing raises in "
+    "parse, PacketIn.parsed, str(), pack(), str() again, dump(), pack() again (same bytes); the same bytes parsed again after a different frame went through the "
+    "process give the same result; real PacketIn events for the corpus and one generated frame in sixteen into the l2_learning (plain and transparent; flood, "
+    "drop and flow-install paths with ofp_match.from_packet) and discovery handlers return.")
 C15.level_note = (
     "The theorems are about the hand-written model Model/PacketParse.lean; they are tied to the code only by the differential run. PARTIAL: what a TCP segment "
     "carrying the MPTCP option parses to is outside the model (`foreign`; the theorems say it is the only such layer; tcp.parse wraps parse_options in except "
     "Exception; oracle only); the DHCP option *classes* are not modelled (unpackOptions wraps each in try/except and falls back to the raw bytes; the model keeps "
-    "code + bytes); pack() of the phase-2 classes is not modelled (oracle only; the registered pack findings K2-K4, K11, K12, K15, K16 are repaired in HEAD); "
-    "str() of an object whose parse gave up prints constructor defaults and is checked by the oracle only. K14 (before its repair) is over-approximated (IPAddr "
-    "of a 0..3-byte slice is libc's text parse): where Python happens to accept the text the model declines and nothing is compared. DNS with D46: the model "
-    "follows up to 1025 compression pointers per name (a loop-free chain visits each of the 1024 reachable offsets at most once); CPython gives up (caught "
+    "code + bytes); pack() of the phase-2 classes other than mpls, eapol, eap is not modelled (oracle only: extending it needs the header-range facts of every "
+    "class in the parse invariant and length bounds for what sits inside IPv4/UDP; C14's PacketExt has per-class hdr lemmas but no general pack theorem); "
+    "str() of an object whose parse gave up prints constructor defaults and is checked by the oracle only. K14 (before its repair) is over-approximated. DNS: the "
+    "model follows up to 1025 compression pointers per name (a loop-free chain visits each of the 1024 reachable offsets at most once); CPython gives up (caught "
     "RecursionError) when a chain is longer than the stack it has left - about 900 hops, which needs overlapping pointers - there the model says parsed and the "
     "code says unparsed; neither raises. struct.pack('!I', len) in the ICMPv6 checksum is assumed not to overflow (frames < 4 GiB). Python's recursion limit is "
     "modelled abstractly as a number of nested constructor activations (CPython spends 2-3 frames per nested header). The print model contains the operations that "
     "can raise (%d/%i/%x conversions, the llc / lldp cases found in phase 1) and the try/except of packet_base.__str__ around _to_str. Exponential time of pack() on "
-    "nested UDP encapsulation is outside the property. Event handlers are not modelled: the oracle drives l2_learning and discovery with real PacketIn events; other "
-    "components' handlers are out of scope.")
+    "nested UDP encapsulation is outside the property. Event handlers are not modelled: the oracle drives l2_learning and discovery with real PacketIn events "
+    "(LLDP frames addressed to the discovery multicast 01:23:20:00:00:01 reach the handler's body); other components' handlers are out of scope. The variant of "
+    "the tree is decided by behaviour probes (one frame per repair); the shape of the source is a cross-check only (evidence field variant_notes).")
 C15.trusted_base = [
     "model Model/PacketParse.lean (reusing the header records, struct layouts, hdr() and TCP option models of Model/PacketHdr.lean, C14) hand-written from pox/lib/packet; tied by this correspondence run",
     "harness/c15_frames.py: hand-written wire builders for the corpus of valid frames; harness/c15.py: mutation engines, canonicalisation of the object chain, the oracle"]
